@@ -24,6 +24,9 @@ open Moc
 
 theorem merge_source_pinned : mergeActualSource = mergeExpectedSource := rfl
 
+/-- each client message updates the one table the trace model gives it (a CLOSE leaves pending COUNTs alone) -/
+theorem merge_recv_pinned : mergeRecvActual = mergeRecvExpected := rfl
+
 theorem joinPick_all_accept (row : List OKMsg) (hall : row.all (·.accepted) = true) : joinPick row = row := by
   have hng : row.filter (fun m => !m.accepted) = [] := by
     simp only [List.filter_eq_nil_iff]
